@@ -224,6 +224,13 @@ def get_binary(binary):
         or if it's not an executable file.
 
     """
+    # verification hook: when WORDSEG_VERIF_BINDIR is set, the binaries are
+    # searched in that directory (stand-ins or freshly built programs)
+    if os.environ.get('WORDSEG_VERIF_BINDIR'):
+        hook_path = os.path.join(os.environ['WORDSEG_VERIF_BINDIR'], binary)
+        if os.path.isfile(hook_path) and os.access(hook_path, os.X_OK):
+            return hook_path
+
     pkg = pkg_resources.Requirement.parse('wordseg')
 
     binary_path = ''
